@@ -39,7 +39,7 @@ def wrap(v, t):
 
 
 class FD:
-    def __init__(self, P, max_steps=20000):
+    def __init__(self, P, max_steps=200000):
         self.P = P
         self.max_steps = max_steps
 
@@ -145,15 +145,30 @@ class FD:
             g = self.P.functions.get(e.get('callee'))
             if g is None or depth > 6:
                 raise Top()
-            args = [self.ev(fn, a, env, depth) for a in kids(e)]
-            return self.call(g, args, depth + 1)
+            args = []
+            extra = {}
+            for i_, a in enumerate(kids(e)):
+                try:
+                    args.append(self.ev(fn, a, env, depth))
+                except Top:
+                    # an object handed on by pointer: the callee sees the fields the caller knows
+                    a0_ = strip_casts(a)
+                    if not (a0_.get('op') == 'ref' and (a0_.get('t') or '').startswith('p') and i_ < len(g.params)):
+                        raise
+                    args.append(None)
+                    pre_ = a0_['name'] + '.'
+                    for k_, v_ in env.items():
+                        if isinstance(k_, str) and k_.startswith(pre_):
+                            extra[g.params[i_]['name'] + '.' + k_[len(pre_):]] = v_
+            return self.call(g, args, depth + 1, extra)
         raise Top()
 
-    def call(self, g, args, depth=0):
+    def call(self, g, args, depth=0, extra_env=None):
         """Concrete evaluation of a pure integer helper on constants."""
-        env = {}
+        env = dict(extra_env or {})
         for p, a in zip(g.params, args):
-            env[p['name']] = wrap(a, p['t'])
+            if a is not None:
+                env[p['name']] = wrap(a, p['t'])
         b = g.entry
         steps = 0
         while True:
@@ -171,6 +186,12 @@ class FD:
                     lhs, rhs, o = ev.store_parts()
                     l0 = strip_casts(lhs)
                     if l0.get('op') != 'ref' or l0.get('rk') not in ('local', 'param'):
+                        if l0.get('op') in ('sub', 'member') or (l0.get('op') == 'un' and l0.get('o') == '*'):
+                            # a store to memory: a field the caller knew is no longer known, other loads are Top anyway
+                            pth_ = g.path(l0)
+                            if pth_ is not None:
+                                env.pop(str(pth_), None)
+                            continue
                         raise Top()          # not pure
                     name = l0['name']
                     if rhs is None:
@@ -189,7 +210,24 @@ class FD:
                 elif ev.k == 'call':
                     h = self.P.functions.get(ev.callee)
                     if h is None:
-                        raise Top()
+                        # an external function: what it can reach through its arguments is no longer known
+                        for a in ev.args:
+                            a0 = strip_casts(a)
+                            if a0.get('op') == 'un' and a0.get('o') == '&':
+                                a0 = strip_casts(a0['k'][0])
+                            pth_ = g.path(a0)
+                            root_ = pth_.t[1] if pth_ is not None else None
+                            if root_ is None:
+                                continue
+                            if len(pth_.t) == 2 and not (strip_casts(a).get('op') == 'un'):
+                                # a plain value: only what it points to is reachable
+                                for k_ in [k_ for k_ in env if isinstance(k_, str) and k_.startswith(root_ + '.')]:
+                                    env.pop(k_)
+                            else:
+                                for k_ in [k_ for k_ in env if isinstance(k_, str) and (k_ == root_ or k_.startswith(root_ + '.'))]:
+                                    if k_ == root_ and strip_casts(a).get('op') != 'un':
+                                        continue
+                                    env.pop(k_)
             if not b.succs:
                 raise Top()
             if len(b.succs) == 1:
